@@ -280,6 +280,25 @@ Definition same_values (a b : list eval) : Prop :=
 Definition entry_ok (e : entry) : bool :=
   keys_nodup (map fst e) && forallb (fun kv => str_eqb (lower (fst kv)) (fst kv)) e.
 
+(** * The update path: LdapObject.create (store _remove_empty(to_entry(o1))), then LdapObject.update(o2):
+      new_entry = to_entry(o2); old_entry = the stored attributes named in new_entry (Admin.get with
+      _entry_plain_keys(new_entry); no attribute options here); modify(_diff_entries(old_entry, new_entry));
+      then read back with from_entry.  [None] = a (type, value) combination outside the model. *)
+Definition ldap_update_mods (sch : schema) (o1 o2 : obj) : option (entry * mods) :=
+  match dict_2_entry sch o1 [] , dict_2_entry sch o2 [] with
+  | Some e1, Some new =>
+      let stored := remove_empty e1 in
+      let fetched := filter (fun kv => existsb (fun k => str_eqb k (fst kv)) (map fst new)) stored in
+      Some (stored, diff_entries fetched new)
+  | _, _ => None
+  end.
+
+Definition ldap_create_update_load (sch : schema) (o1 o2 : obj) : option (res obj) :=
+  match ldap_update_mods sch o1 o2 with
+  | Some (stored, ms) => Some (entry_2_dict sch (apply_mods stored ms))
+  | None => None
+  end.
+
 (** generated schema rows carry a type code *)
 Definition conv_schema (rows : list (str * (option str * Z))) : option schema :=
   all_some (map (fun r => match ftype_of_code (snd (snd r)) with
